@@ -1,6 +1,6 @@
 (* C12 - Earlier figures do not change when later transactions are added.  Statements only. *)
 From Coq Require Import QArith Qcanon ZArith List Bool Lia.
-Require Import CGT.Model.Num CGT.Model.Match CGT.Proofs.MatchFacts CGT.Proofs.MatchInv CGT.Proofs.MatchPrefix.
+Require Import CGT.Model.Num CGT.Model.Match CGT.Proofs.MatchFacts CGT.Proofs.MatchInv CGT.Proofs.MatchPrefix CGT.Proofs.MatchFinal.
 Import ListNotations.
 Open Scope Qc_scope.
 
@@ -43,5 +43,38 @@ Proof.
   - split; [eexists; vm_compute; reflexivity|vm_compute; reflexivity].
 Qed.
 
+(* The property in its own form: the disposals of a leading part `pre` are final once every day up to w (= 30) days after them is
+   present - WHATEVER lies in between.  `mid` may contain days within 30 days of the appended `far` days; only the days of `pre` must
+   be more than w days before every appended day.  mp_pre is the main pass over pre (its look-aheads reading the rest of pre, then mid);
+   its result is the same with and without `far`: a refusal inside pre is the refusal of both histories; otherwise the disposals recorded
+   for pre's days (m_disp sp) are a common prefix of both histories' disposal lists, what follows is dated in mid (resp. mid or far), and
+   the extended history can only be refused on a day of mid or far. *)
+Theorem C12_disposals_final : forall w pre mid far, no_events far -> (forall d e, In d pre -> In e far -> (dt e - dt d > w)%Z) ->
+  forall offs, prepass false [] (pre ++ mid) = inr offs ->
+  match mp_pre w offs mst0 pre mid with
+  | inl e => run w (pre ++ mid) = inl e /\ run w (pre ++ mid ++ far) = inl e
+  | inr sp =>
+      (forall s1, run w (pre ++ mid) = inr s1 -> exists L, m_disp s1 = m_disp sp ++ L /\ Forall (fun x => In (fst x) (dates mid)) L) /\
+      (forall s2, run w (pre ++ mid ++ far) = inr s2 -> exists L, m_disp s2 = m_disp sp ++ L /\ Forall (fun x => In (fst x) (dates (mid ++ far))) L) /\
+      (forall e, run w (pre ++ mid ++ far) = inl e -> In (err_date e) (dates (mid ++ far)))
+  end.
+Proof. exact disposals_final. Qed.
+
+(* non-vacuity: a sale on day 5; a purchase on day 20 in between; appended: a purchase on day 36 (31 days after the sale, only 16 after day 20) *)
+Example C12_final_witness :
+  let mk z b bc hb s sg hs := {| dt := z; bq := Q2Qc (inject_Z b); bcost := Q2Qc (inject_Z bc); hasbuy := hb; sq := Q2Qc (inject_Z s); sgross := Q2Qc (inject_Z sg);
+                                 sfees := 0; hassell := hs; evs := []; ratio := 1 |} in
+  let pre := [mk 0%Z 10%Z 10%Z true 0%Z 0%Z false; mk 5%Z 0%Z 0%Z false 4%Z 8%Z true] in
+  let mid := [mk 20%Z 2%Z 6%Z true 0%Z 0%Z false] in
+  let far := [mk 36%Z 3%Z 9%Z true 0%Z 0%Z false] in
+  no_events far /\ (forall d e, In d pre -> In e far -> (dt e - dt d > 30)%Z) /\ (exists d e, In d mid /\ In e far /\ (dt e - dt d <= 30)%Z) /\
+  (exists offs sp, prepass false [] (pre ++ mid) = inr offs /\ mp_pre 30 offs mst0 pre mid = inr sp /\ List.length (m_disp sp) = 1%nat).
+Proof.
+  cbv zeta. split; [intros e [<-|[]]; reflexivity|]. split; [intros d e [<-|[<-|[]]] [<-|[]]; cbn; lia|].
+  split; [eexists; eexists; split; [left; reflexivity|split; [left; reflexivity|cbn; lia]]|].
+  eexists. eexists. split; [vm_compute; reflexivity|]. split; [vm_compute; reflexivity|reflexivity].
+Qed.
+
+Print Assumptions C12_disposals_final.
 Print Assumptions C12_lookahead_bounded.
 Print Assumptions C12_prefix_stable.
